@@ -12,6 +12,8 @@ Streams:
              grid) and seeded random priorities
   failing    the same with one task whose k-th callback raises (C06 generator)
   lru        tasks compiling templates through a full template cache (template_cache_size = 2)
+  lru-atomic the same with LRUCache's own operations atomic (only the lines of template.py are pre-emption points):
+             the listed LRU finding cannot show, every deviation from the solo outcome is a violation
   assets     tasks rendering component classes whose template_file / js_file / css_file were never accessed
 """
 from __future__ import annotations
@@ -89,7 +91,7 @@ def solo_outcomes(progs, isolated):
     return outs
 
 
-def run_schedule(progs, isolated, policy, first):
+def run_schedule(progs, isolated, policy, first, gated=None):
     tplgen.clear_census()
     tplgen.set_mode(isolated)
     builts, tasks = [], []
@@ -99,7 +101,7 @@ def run_schedule(progs, isolated, policy, first):
         builts.append(b)
         tasks.append(Task(p, b, rec))
     try:
-        s = sched.Scheduler(tasks, GATED, policy)
+        s = sched.Scheduler(tasks, gated or GATED, policy)
         s.turn = first
         results = s.run()
         outs = [outcome(r, b) if r is not None else "STUCK" for r, b in zip(results, builts)]
@@ -266,8 +268,10 @@ def run_footprint(chk, n):
             m.gen_id = tplgen._seq_id
 
 
-def run_lru(chk, n):
-    """tasks compile templates through a template cache of size 2"""
+def run_lru(chk, n, atomic=False):
+    """tasks compile templates through a template cache of size 2.  `atomic`: the operations of LRUCache are not
+    pre-empted (only the lines of template.py are), so the listed LRU finding cannot show and every outcome
+    other than the solo one is a violation"""
     from django.conf import settings
     from django_components.template import cached_template
     import django_components.cache as T
@@ -276,7 +280,9 @@ def run_lru(chk, n):
     saved = T.template_cache
     try:
         for i in range(n):
-            r = core.rng(PROP, "lru", i)
+            stream = "lru-atomic" if atomic else "lru"
+            gated = ("django_components/template.py",) if atomic else GATED
+            r = core.rng(PROP, stream, i)
             T.template_cache = None
             seqs = [[r.choice(["A{{ a }}", "B{{ a }}", "C{{ a }}", "D{{ a }}"]) for _ in range(r.randint(2, 5))] for _ in range(2)]
 
@@ -287,15 +293,15 @@ def run_lru(chk, n):
                 return task
             expected = [[s[0] + "v" for s in seq] for seq in seqs]
             for j in range(6):
-                rr = core.rng(PROP, "lru-sched-%d" % i, j)
+                rr = core.rng(PROP, stream + "-sched-%d" % i, j)
                 T.template_cache = None
-                s = sched.Scheduler([mk(q) for q in seqs], GATED, sched.random_priorities(rr, rr.choice([0.1, 0.3, 0.7])))
+                s = sched.Scheduler([mk(q) for q in seqs], gated, sched.random_priorities(rr, rr.choice([0.1, 0.3, 0.7])))
                 s.turn = rr.randrange(2)
                 res = s.run()
                 if s.stuck:
-                    chk.count("lru/stuck", 1)
+                    chk.count(stream + "/stuck", 1)
                     continue
-                chk.count("lru", 1, validated=2)
+                chk.count(stream, 1, validated=2)
                 outs = [v if k == "ok" else "ERR " + type(v).__name__ for k, v in res]
                 cache = T.template_cache
                 size_ok = cache is None or len(cache.cache) <= 2
@@ -303,8 +309,8 @@ def run_lru(chk, n):
                     case = {"sequences": seqs, "schedule": "random-%d" % j, "switch_trace": s.trace[:60]}
                     if outs != expected and all(isinstance(o, str) for o in outs if o not in expected):
                         pass
-                    chk.known_hit("lru-cache-not-thread-safe", case) if _lru_known(outs, expected, size_ok) else \
-                        chk.violation("impl-violates-spec", "lru", case, impl={"outcomes": outs, "expected": expected,
+                    chk.known_hit("lru-cache-not-thread-safe", case) if (not atomic) and _lru_known(outs, expected, size_ok) else \
+                        chk.violation("impl-violates-spec", stream, case, impl={"outcomes": outs, "expected": expected,
                                       "cache_size": None if cache is None else len(cache.cache)},
                                       note="concurrent compilation through a full template cache")
     finally:
@@ -313,8 +319,9 @@ def run_lru(chk, n):
 
 
 def _lru_known(outs, expected, size_ok):
-    """the listed finding: pointer updates of LRUCache interleave (AttributeError / KeyError / oversize)"""
-    return all(o == e or (isinstance(o, str) and o.startswith("ERR ")) for o, e in zip(outs, expected))
+    """the listed finding: pointer updates of LRUCache interleave (AttributeError / KeyError / its own
+    RuntimeError("Tail node is None") / oversize)"""
+    return all(o == e or o in ("ERR AttributeError", "ERR KeyError", "ERR RuntimeError") for o, e in zip(outs, expected))
 
 
 def run_assets(chk, n):
@@ -380,6 +387,7 @@ def run(tier: str) -> int:
         explore(chk, "provider-free-failing", 8, [3, 25, 80, 200], 8, failing=True)
         run_footprint(chk, 150)
         run_lru(chk, 12)
+        run_lru(chk, 25, atomic=True)
         run_assets(chk, 4)
     else:
         explore(chk, "provider-free", 120, [1, 3, 10, 25, 50, 80, 150, 300], 30, failing=False)
@@ -388,6 +396,7 @@ def run(tier: str) -> int:
         explore(chk, "provider-free-failing", 120, [1, 3, 10, 25, 50, 80, 150, 300], 30, failing=True)
         run_footprint(chk, 3000)
         run_lru(chk, 300)
+        run_lru(chk, 600, atomic=True)
         run_assets(chk, 60)
     chk.assumptions += [
         "pre-emption points: every line of the gated files; pre-emption inside a line, C-level dict atomicity and "
